@@ -50,8 +50,7 @@ MANIFEST = dict(
          "Identifier/keyword token (both directions). C10_optable / C10_lex_tables: the precedence chain, operator token "
          "sets, keyword map and subscript range re-extracted from the Rust source on every run equal the model's; documented "
          "spellings and number forms lex as documented (finite tables). NOT proved: soundness (the converse direction) for "
-         "definitions and for inputs with newline tokens / trailing commas (C10_full); string interpolation (explicit "
-         "Unsupported in lexer and parser model); a `>=` token that closes a type-parameter list (Unsupported) — these rest "
+         "definitions and for inputs with newline tokens / trailing commas (C10_full); a `>=` token that closes a type-parameter list (Unsupported) — these rest "
          "on the model-vs-implementation correspondence (token kinds, lexemes, trees, first error kind) and the reference "
          "recogniser.",
     design_ref="DESIGN.md §6 C10; design/syntax.md",
@@ -444,7 +443,7 @@ def run(chk):
                     for n in (0, len(cases) // 3, len(cases) // 2, len(cases) - 1)],
     })
     chk.assumptions += ["identifiers and other characters are drawn from the character set listed in Syntax/Exec.v (supported)",
-                        "string interpolation and statement syntax are outside the model (explicit UNSUPPORTED result, not compared)"]
+                        "a `>=` token that closes a type-parameter list is outside the model (explicit UNSUPPORTED result, not compared)"]
 
 
 def replay(path):
